@@ -9,7 +9,7 @@ for item in sys.argv[1:]:
     meta = json.load(open(os.path.join(d, "meta.json")))
     pid = meta["property"]
     cmd = [os.path.join(V, "tools", "try_patch.sh"), pid, os.path.join(d, "patch.diff")] + (["--only", only] if only else [])
-    out = subprocess.run(cmd, capture_output=True, text=True, env=dict(os.environ, TAILN="30")).stdout
+    out = subprocess.run(cmd, capture_output=True, text=True, env=dict(os.environ, TAILN="5000")).stdout
     m = re.search(r"exit=(\d+)", out)
     code = int(m.group(1)) if m else None
     vio = "VIOLATION property=%s" % pid in out
